@@ -4,7 +4,7 @@ from harness import gen_seq
 from runner import Case, CaseSet
 
 ID = 'C12'
-OBLIGATIONS = ['Props/C12.v', 'Props/Tie/alphabets_tie.v']
+OBLIGATIONS = ['Props/C12.v', 'Props/Tie/alphabets_tie.v', 'Props/Tie/minipy_alphabet_tie.v']
 RULE = ('predefined: every size 0..25 x (the 20 residues as one word, plus random sequences); user alphabets: '
         'random total / partial / invalid-value / non-dict; non-trivial = distinct (size|alphabet, sequence) with an '
         'accepted alphabet and a sequence of >= 2 distinct residues')
